@@ -87,6 +87,9 @@ impl Signature {
     }
 
     pub fn get_public_key_from_digest(&self, digest: &[u8]) -> Result<PublicKey, BSVErrors> {
+        if digest.len() != 32 {
+            return Err(BSVErrors::CustomECDSAError(format!("Digest must be 32 bytes long, got {}", digest.len())));
+        }
         let recovery = match &self.recovery {
             Some(v) => v,
             None => {
